@@ -73,6 +73,7 @@ func finish(run *PropRun) int {
 	var violations, known, unconfirmed []confirmed
 	tracesValidated, traceMismatch := 0, 0
 	var replayErrs []string
+	var modelValidation []string
 	pkgs := []string{}
 	for p := range jobsByPkg {
 		pkgs = append(pkgs, p)
@@ -84,7 +85,26 @@ func finish(run *PropRun) int {
 		for i, j := range jobs {
 			files[i] = j.path
 		}
-		outcomes, log, err := nativeReplay(pkg, files)
+		var validate []string
+		seenV := map[string]bool{}
+		for _, res := range run.Results {
+			if res.Spec.Pkg == pkg {
+				for _, v := range res.Spec.Validate {
+					if !seenV[v] {
+						seenV[v] = true
+						validate = append(validate, v)
+					}
+				}
+			}
+		}
+		outcomes, log, err := nativeReplay(pkg, files, validate...)
+		for _, v := range validate {
+			line := outcomes["model:"+v]
+			modelValidation = append(modelValidation, v+": "+line)
+			if !strings.Contains(line, "mismatches=0 ") {
+				run.Inconclusive = append(run.Inconclusive, "library model "+v+" disagrees with the real library natively: "+line)
+			}
+		}
 		if err != nil {
 			replayErrs = append(replayErrs, fmt.Sprintf("native replay in %s: %v", pkg, err))
 			if len(log) > 2000 {
@@ -161,6 +181,7 @@ func finish(run *PropRun) int {
 		fmt.Printf("INCONCLUSIVE property=%s %s\n", id, m)
 	}
 
+	run.ModelValidation = modelValidation
 	writeEvidence(run, tracesValidated, traceMismatch, len(violations)+extraViol, len(known), len(unconfirmed), replayErrs)
 	if len(violations)+extraViol > 0 {
 		return 1
@@ -267,6 +288,7 @@ func writeEvidence(run *PropRun, tracesValidated, traceMismatch, nviol, nknown, 
 		"known_findings_reproduced":   nknown,
 		"unconfirmed_counterexamples": nunconf,
 		"native_replay_errors":        replayErrs,
+		"model_validation":            run.ModelValidation,
 		"exhaustive":                  false,
 	}
 	ev := map[string]any{
